@@ -196,7 +196,7 @@ impl Scenario for C17 {
     fn jobs(&self, tier: Tier) -> u64 {
         match tier {
             Tier::Quick => 160,
-            Tier::Thorough => 6_000,
+            Tier::Thorough => 2_500,
         }
     }
     fn rule_text(&self) -> &'static str {
